@@ -113,7 +113,7 @@ func c13(r *mon.Run) {
 				d := dg.TypedDoc(0)
 				pool = append(pool, d, perturb(rng, d))
 			}
-			pool = append(pool, nil, []interface{}{}, dg.Doc())
+			pool = append(pool, nil, []interface{}{}, dg.Doc(), "str", "str2", float64(1), true)
 			n := 8 + rng.Intn(33)
 			seq := make([]int, n)
 			for k := range seq {
